@@ -705,7 +705,16 @@ def rank_request(rng, d, n, tier):
     prof = gen.rand_ranks(rng, d, rmax)
     if u < 0.7:
         return list(prof), prof, 'list'
-    return np.array(prof), prof, 'ndarray'
+    if u < 0.85:
+        return np.array(prof), prof, 'ndarray'
+    # per-bond ranks stored in a narrow integer dtype, large enough that the
+    # product of two neighbours (times a mode size) leaves that dtype
+    dt = [np.int8, np.uint8, np.int16, np.uint16][int(rng.integers(4))]
+    big = {np.int8: 12, np.uint8: 16, np.int16: 40, np.uint16: 40}[dt]
+    if d >= 3 and rng.random() < 0.7:
+        prof = [1] + [int(rng.integers(big - 3, big + 1))
+            for _ in range(d - 1)] + [1]
+    return np.array(prof, dtype=dt), prof, 'ndarray-' + np.dtype(dt).name
 
 
 def shape_for_rand(rng, tier):
